@@ -93,6 +93,15 @@ func sanitizersForAttributeValue(c context) ([]string, error) {
 			return nil, fmt.Errorf("action cannot be interpolated into the %q attribute value of this %q element: %s", c.attr.name, c.element.name, err)
 		}
 	}
+	if sc0 == sanitizationContextURLSet && (c.attr.value != "" || c.attr.ambiguousValue) {
+		// The static prefix and the data form the URL of the first image candidate together.
+		if c.attr.ambiguousValue {
+			return nil, fmt.Errorf("actions must not occur after an ambiguous URL prefix in the %q attribute value context of a %q element", c.attr.name, c.element.name)
+		}
+		if err := validateURLPrefix(c.attr.value); err != nil {
+			return nil, fmt.Errorf("action cannot be interpolated into the %q URL attribute value of this %q element: %s", c.attr.name, c.element.name, err)
+		}
+	}
 	// ret is a stack of sanitizer names that will be built in reverse.
 	var ret []string
 	// All attribute values must be HTML-escaped at run time to eliminate any HTML markup that
